@@ -100,7 +100,24 @@ func (b *byzActor) genHostile(h *Node, rs *cstypes.RoundState) *hostileMsg {
 	size := rs.Validators.Size()
 	chans := []byte{cs.StateChannel, cs.DataChannel, cs.VoteChannel, cs.VoteSetBitsChannel}
 
-	switch t.Pick(3, 3, 5, 3, 4, 2, 2, 2) {
+	kindPick := t.Pick(3, 3, 5, 3, 4, 2, 2, 2)
+	// late in a long stall (past the 12-minute limit after which a node accepts
+	// a recover-typed proposal, before its own 15-minute recover timer) the
+	// recover trigger is the state-changing path worth aiming at
+	inRecoverWindow := cl.cfg.LongStall > 0 && cl.now > 12*time.Minute+20*time.Second && cl.now < cl.cfg.LongStall
+	if inRecoverWindow && t.Bool(1, 2) {
+		H := rs.Height
+		R, rn := boundaryInt(t, rs.Round)
+		pol, pn := boundaryInt(t, -1)
+		tot, tn := boundaryInt(t, 1)
+		p := &types.Proposal{Type: types.ProposalTypeRecover, Height: H, Round: R, Timestamp: time.Now().UTC(), POLRound: pol,
+			BlockPartsHeader: types.PartSetHeader{Total: tot, Hash: t.Bytes(20)}}
+		sig, _ := b.n.key.Priv.Sign([]byte("not the sign bytes"))
+		p.Signature = sig
+		cl.c.Probe("hostile-recover-proposal-in-window")
+		return enc(fmt.Sprintf("proposal/recover/H=cur/R=%s/pol=%s/total=%s", rn, pn, tn), cs.DataChannel, &cs.ProposalMessage{Proposal: p}, true)
+	}
+	switch kindPick {
 	case 0: // raw garbage
 		n := t.Range(0, 200)
 		return &hostileMsg{name: "garbage", chID: chans[t.Int(4)], bz: t.Bytes(n), mustNotChg: true}
